@@ -87,14 +87,14 @@ def plan(pid, tier):
                 "assumptions": ["rustc 1.95's borrow checker and trait solver are the judge; the reference model (loans live to last use, or to scope end for types with drop glue) is only the expectation", "programs outside the grammar (generic clients, unsafe code, other statement kinds) are not covered"],
                 "bounds": {"statements_after_creation": 2 if q else 3, "holders": 2, "holder_kinds": 12, "events": 7}}
     if pid == "C18":
-        jobs = [grid_job("capacity-compositions", "capacity", 18, tier), grid_job("growth-workloads", "growth", 18, tier, slab_mb=64), arena_job("chunk-capacity-probe", "capprobe", 18, 3, 1, 40, tier), grid_job("vec-string-capacity", "vecgrowth", 18, tier, slab_mb=64)]
+        jobs = [grid_job("capacity-compositions", "capacity", 18, tier), grid_job("growth-workloads", "growth", 18, tier, slab_mb=24, threads=8), arena_job("chunk-capacity-probe", "capprobe", 18, 3, 1, 40, tier), grid_job("vec-string-capacity", "vecgrowth", 18, tier, slab_mb=64)]
         if not q:
-            jobs = [grid_job("capacity-compositions", "capacity", 18, tier, budget=600), grid_job("growth-workloads", "growth", 18, tier, budget=600, slab_mb=96, threads=8),
+            jobs = [grid_job("capacity-compositions", "capacity", 18, tier, budget=600), grid_job("growth-workloads", "growth", 18, tier, budget=900, slab_mb=192, threads=8),
                     arena_job("chunk-capacity-probe-d4", "capprobe", 18, 4, 1, 500, tier, min_aligns="1,8,16"), arena_job("chunk-capacity-probe-d3-dev2", "capprobe", 18, 3, 2, 300, tier),
                     grid_job("vec-string-capacity", "vecgrowth", 18, tier, slab_mb=64)]
         return {"level": "exploration", "jobs": jobs, "owns_crashes": False, "rule": RULE_GRID + "; plus BFS over arena histories with a terminal probe of exactly chunk_capacity() bytes under a refusing allocator",
-                "assumptions": ARENA_ASSUME + ["'logarithmic' and 'constant factor' are decided on a finite workload grid (volumes up to 2^18 quick / 2^24 thorough) with loose constants: requests <= 2*log2(V/first chunk)+6, held <= 8*occupied + 8 KiB + 2 max requests"],
-                "bounds": {"capacities": "0..=600, 2^k-65..2^k-63 (k=10..20), 4032, 4033, 8128, 8129, 2^16, 2^20", "volume_log2": 18 if q else 24, "probe_depth": 3 if q else 4}}
+                "assumptions": ARENA_ASSUME + ["'logarithmic' and 'constant factor' are decided on a finite workload grid (volumes up to 2^22 quick / 2^26 thorough) with loose constants: requests <= 2*log2(V/first chunk)+6, held <= 8*occupied + 8 KiB + 2 max requests"],
+                "bounds": {"capacities": "0..=600, 2^k-65..2^k-63 (k=10..20), 4032, 4033, 8128, 8129, 2^16, 2^20", "volume_log2": 22 if q else 26, "probe_depth": 3 if q else 4}}
     if pid == "C19":
         jobs = [grid_job("overflow-boundaries", "overflow", 19, tier)]
         if not q:
@@ -104,10 +104,11 @@ def plan(pid, tier):
                 "bounds": {"entry_points": 29, "element_sizes": 7, "count_classes": 16, "min_align": [1, 2, 4, 8, 16]}, "build_profiles": ("release",) if q else ("release", "dbg")}
     if pid == "C20":
         d = 7 if q else 8
-        pair = {"name": "pair-interleavings", "bin": "bumpmc", "profile_build": "release", "args": ["pair", "--prop", "20", "--depth", str(d), "--tier", tier, "--budget-s", "40" if q else "600"], "replay_args": ["replay-pair", "--depth", str(d), "--tier", tier]}
+        pair = {"name": "pair-interleavings", "bin": "bumpmc", "profile_build": "release", "args": ["pair", "--prop", "20", "--depth", str(d), "--devs", "1", "--tier", tier, "--budget-s", "40" if q else "900"], "replay_args": ["replay-pair", "--depth", str(d), "--tier", tier]}
+        iso = {"name": "fresh-process-isolation", "bin": "bumpmc", "profile_build": "release", "args": ["isolation", "--tier", tier], "replay_args": ["replay-isolation", "--tier", tier]}
         loom = {"name": "loom-schedules", "bin": "c20_loom", "profile_build": "release", "args": ["run", "--tier", tier], "replay_args": ["replay"]}
-        return {"level": "model_checking", "jobs": [pair, loom], "owns_crashes": False,
-                "rule": "(1) BFS over interleaved histories of 2 (thorough: also 3) real arenas, each with its own allocator slab; every arena's trace is compared with its own sub-history run alone, every footer store reported by the verif_hooks hook must target the acting arena's own chunks; (2) loom explores all schedules (operation granularity, DPOR, no preemption bound) of 2-3 threads each driving its own arena and of arena hand-over; the shared static is a loom UnsafeCell so unsynchronised conflicting accesses are reported as data races",
+        return {"level": "model_checking", "jobs": [pair, iso, loom], "owns_crashes": False,
+                "rule": "(0) fresh-process differential: every probe history of an arena must give the same trace in a process where another arena first ran any prefix history (incl. allocator refusals) as in a process where nothing ran before (catches coupling through process-wide statics); (1) BFS over interleaved histories of 2 (thorough: also 3) real arenas, each with its own allocator slab; every arena's trace is compared with its own sub-history run alone, every footer store reported by the verif_hooks hook must target the acting arena's own chunks; (2) loom explores all schedules (operation granularity, DPOR, no preemption bound) of 2-3 threads each driving its own arena and of arena hand-over; the shared static is a loom UnsafeCell so unsynchronised conflicting accesses are reported as data races",
                 "assumptions": ["bumpalo contains no atomics: schedules are explored at operation granularity; races are decided by happens-before over instrumented accesses (footer stores via the hook, reads of the shared static by chunk-less arenas)", "a store through a site without the hook would be invisible to loom (the sequential pair model still detects a changed static)"],
                 "bounds": {"pair_depth": d, "arenas": 2 if q else 3, "loom_threads": "2-3", "loom_ops_per_thread": "1-3 (thorough: up to 4)"}}
     return None
